@@ -363,6 +363,12 @@ pub fn verif_root() -> PathBuf {
     std::env::var("VERIF_ROOT").map(PathBuf::from).unwrap_or_else(|_| PathBuf::from("/verif"))
 }
 
+/// Where the committed inputs (known findings, promoted regression cases) live: always the checkout the
+/// `check` script belongs to, even when evidence and replays are redirected with VERIF_OUT_ROOT.
+pub fn input_root() -> PathBuf {
+    std::env::var("VERIF_SRC_ROOT").map(PathBuf::from).unwrap_or_else(|_| verif_root())
+}
+
 fn replay_one(subs: &[Sub], prop: &str, known: &Known, v: &Value) -> Result<CaseResult, String> {
     let name = v["sub"].as_str().ok_or("replay file lacks `sub`")?;
     let sub = subs.iter().find(|s| s.prop == prop && s.name == name).ok_or_else(|| format!("unknown sub-check {}", name))?;
@@ -424,7 +430,7 @@ pub fn main(subs: Vec<Sub>, assumptions: &dyn Fn(&str) -> Vec<String>) -> ! {
     }
     let seed: u64 = std::env::var("VERIF_SEED").ok().and_then(|s| s.trim().parse::<i128>().ok()).map(|v| v as u64).unwrap_or(0);
     let root = verif_root();
-    let known = Known::load(&root);
+    let known = Known::load(&input_root());
     let code = run_property(&subs, &prop, &tier, seed, &root, &known, replay.as_deref(), only.as_deref(), assumptions);
     std::process::exit(code)
 }
@@ -457,7 +463,7 @@ pub fn run_property(subs: &[Sub], prop: &str, tier: &str, seed: u64, root: &Path
     // 1. regression cases (shrunk failures promoted earlier), bypassing the generators
     let mut regress_n = 0u64;
     if only.is_none() {
-        if let Ok(rd) = std::fs::read_dir(root.join("regress").join(prop)) {
+        if let Ok(rd) = std::fs::read_dir(input_root().join("regress").join(prop)) {
             let mut files: Vec<PathBuf> = rd.filter_map(|e| e.ok().map(|e| e.path())).filter(|p| p.extension().map(|e| e == "json").unwrap_or(false)).collect();
             files.sort();
             for p in files {
@@ -517,7 +523,9 @@ pub fn run_property(subs: &[Sub], prop: &str, tier: &str, seed: u64, root: &Path
     let report_as = std::env::var("VERIF_REPORT_AS").unwrap_or_else(|_| prop.to_string());
     let mut known_lines = Vec::new();
     for (sig, (n, ex)) in &total.known_hits {
-        println!("KNOWN-FINDING: property={} {} (met {} times; e.g. {})", report_as, sig, n, ex);
+        // the stdout line stays short; the evidence keeps the example with its full tape
+        let short = ex.split(" [tape ").next().unwrap_or(ex);
+        println!("KNOWN-FINDING: property={} {} (met {} times; e.g. {})", report_as, sig, n, short);
         known_lines.push(json!({"signature": sig, "count": n, "example": ex}));
     }
     for (p, v) in &violations {
